@@ -294,8 +294,8 @@ fn main() {
     // symbols separated by single, double and mixed whitespace, with a leading / trailing run
     {
         let lens = tu_verif::enumerate::threshold_lengths(run.pick(10, 12));
-        let pats: [&[&str]; 5] = [&["a"], &["a", " "], &["ä", "a", " ", " "], &["a", "\t", "\u{a0}", "e\u{301}"], &[" ", "a", "a", "a"]];
-        run.bounds.insert("long_phase".into(), json!(format!("lengths {lens:?} (in symbols) x 5 repeated patterns x use_graphemes")));
+        let pats: [&[&str]; 6] = [&["a"], &["a", " "], &["ä", "a", " ", " "], &["a", "\t", "\u{a0}", "e\u{301}"], &[" ", "a", "a", "a"], &["\u{0}", " ", "\u{10ffff}", "\u{7f}"]];
+        run.bounds.insert("long_phase".into(), json!(format!("lengths {lens:?} (in symbols) x 6 repeated patterns x use_graphemes")));
         for (k, n) in lens.iter().enumerate() {
             if !run.unit(units + (patterns.len() + k) as u64) {
                 continue;
